@@ -105,6 +105,9 @@ pub fn proj_dt_full(d: &DateTime) -> Value {
                       p["off"].as_i64().unwrap() as i32);
     let eqc = canon == *d && *d == canon && canon.cmp(d) == std::cmp::Ordering::Equal && readings(d) == readings(&canon);
     p["eqc"] = json!(eqc);
+    if matches!(d.get_offset(), Offset::Local) {
+        p["loc"] = json!(true);
+    }
     p
 }
 
